@@ -122,6 +122,8 @@ impl Mutator {
         let world = World {
             root: self.root.clone(),
             root_text: self.root_text.clone(),
+            // (mutations never aim at the foreign tree)
+            foreign: None,
         };
         let result = world.mutate(&self.mutations[mi], mi);
         log.borrow_mut().push(Ev::Mut {
